@@ -83,14 +83,26 @@ Proof.
     inversion H; subst; (split; [nb|]); (split; [|discriminate]); rewrite ?bc_tarpit; cbn [badcmds]; exact Hb.
 Qed.
 
+Lemma subm_gate_bad s al s1 pre : subm_gate o s = (al, s1, pre) ->
+  badcmds s1 = badcmds s /\ (pre = [] \/ pre = [Reply 421]).
+Proof.
+  unfold subm_gate. destruct (o_submission o); [apply relay_decide_bad|]. intros H; inversion H; subst. auto.
+Qed.
+
 Lemma h_from_bad s arg len evs h s' : h_from o s arg len = (evs, h, s') -> nobad evs /\ badcmds s' = badcmds s /\ h <> HEXIT.
 Proof.
   unfold h_from. intros H.
-  repeat (match type of H with
-          | context [match ?x with _ => _ end] => destruct x eqn:?
-          | context [if ?x then _ else _] => destruct x eqn:?
-          end; try discriminate);
-    inversion H; subst; (split; [nb|]); (split; [|discriminate]); rewrite ?bc_tarpit; reflexivity.
+  destruct (o_addr o false arg) as [| | |addr more cls]; [inversion H; subst; split; [nb|split; [reflexivity|discriminate]]| | |];
+    (match type of H with context [subm_gate o ?sc] =>
+       destruct (subm_gate o sc) as [[al s1] pre] eqn:Eg; destruct (subm_gate_bad _ _ _ _ Eg) as (Hb & Hpre) end);
+    cbn [badcmds] in Hb;
+    (destruct pre as [|p pre'];
+     [|inversion H; subst; destruct Hpre as [E|E]; [discriminate|]; inversion E; subst; split; [nb|split; [exact Hb|discriminate]]]);
+    repeat (match type of H with
+            | context [match ?x with _ => _ end] => destruct x eqn:?
+            | context [if ?x then _ else _] => destruct x eqn:?
+            end; try discriminate);
+    inversion H; subst; (split; [nb|]); (split; [|discriminate]); rewrite ?bc_tarpit; cbn [badcmds]; exact Hb.
 Qed.
 
 Lemma h_data_bad f s evs h s' : h_data f o s = (evs, h, s') ->
